@@ -27,6 +27,7 @@ type renStep struct {
 	Code   int      `json:",omitempty"`
 	CT     string   `json:",omitempty"` // Data: content type
 	Text   string   `json:",omitempty"` // hex: String / HTML / Data payload
+	After  string   `json:",omitempty"` // hex: afterwards the handler (a relabelling middleware) calls c.Header("Content-Type", After)
 	FailAt int      `json:",omitempty"` // 0: healthy recorder; k: the writer's k-th Write fails
 	Mode   int      `json:",omitempty"` // 0 broken from then on, (0, err); 1 broken from then on, short write; 2 only that one Write fails
 }
@@ -81,6 +82,9 @@ func genRenStep(r *hx.Rand) renStep {
 		s.Op = "JSON"
 		s.J = genJsn(r)
 	}
+	if r.Chance(1, 5) {
+		s.After = hex.EncodeToString([]byte(hx.Pick(r, []string{"text/plain; charset=utf-8", "application/vnd.api+json", "text/html", "x\r\ny"})))
+	}
 	if r.Chance(7, 20) {
 		s.FailAt = hx.Pick(r, []int{1, 1, 1, 2, 2, 3})
 		s.Mode = hx.Pick(r, []int{0, 0, 1, 2})
@@ -106,6 +110,12 @@ func genRen(r *hx.Rand) *renCase {
 			k.Steps = k.Steps[:6]
 		}
 	}
+	// the history always ends with two ordinary responses on healthy writers: whatever an earlier step
+	// left behind in the process shows up inside the case itself
+	tailJ := genJsn(r)
+	k.Steps = append(k.Steps,
+		renStep{Op: "JSON", J: tailJ},
+		renStep{Op: "Stringf", F: &fmtCase{Code: 200, Format: hex.EncodeToString([]byte("tail=%s;")), Args: []argT{{K: "s", S: hex.EncodeToString([]byte(hx.Pick(r, fmtStrings)))}}}})
 	return k
 }
 
@@ -143,9 +153,13 @@ func runRenStep(s renStep) (o renObs) {
 		case "JSON":
 			o.err = callJSON(c, s.J, s.J.V.val(), unhex(s.J.Extra))
 		}
+		// the response as the render call left it
+		o.code, o.ct, o.body = rec.Code, c.Response.Header().Get("Content-Type"), append([]byte(nil), rec.Body.Bytes()...)
+		if s.After != "" {
+			c.Header("Content-Type", unhex(s.After))
+		}
 	}
 	rt.ServeHTTP(w, req)
-	o.code, o.ct, o.body = rec.Code, rec.Header().Get("Content-Type"), rec.Body.Bytes()
 	if s.Op == "JSON" && o.err == nil && !o.panicked {
 		o.same = jsonSame(s.J, s.J.V.val(), unhex(s.J.Extra), o.body)
 	}
@@ -217,6 +231,9 @@ func emitRen(id string, k *renCase, st *hx.Stats) string {
 		}
 		for _, s := range k.Steps {
 			st.Count("R_op_" + s.Op)
+			if s.After != "" {
+				st.Count("R_content_type_relabelled_afterwards")
+			}
 			if s.FailAt > 0 {
 				st.Count("R_flaky_writer_mode_" + strconv.Itoa(s.Mode) + "_at_" + strconv.Itoa(s.FailAt))
 			}
